@@ -39,22 +39,20 @@ class Malformed(Exception):
 
 
 def _env(basis, Bpi, fields, attrs):
-    """kwargs for the code, accessor table and the JSON env for TLC"""
-    kw, facc, fenv, fs = {}, {}, {}, {}
+    """kwargs for the code (the array objects are created once and may be modified in place between calls),
+    accessor table, scales and the projections of the default fields"""
+    kw, facc, fs, defpi = {}, {}, {}, {}
     shape = (Bpi['nel'], Bpi['nq'])
     defaults = None
     for f in fields:
         name = f['name']
         if f['kind'] == 'dof':
-            vec = np.array(f['vec'], dtype=np.float64)
-            kw[name] = vec
+            kw[name] = np.array(f['vec'], dtype=np.float64)
             facc[name] = fem.accessors(basis.basis[0], attrs)
-            fenv[name] = {'kind': 'dof', 'nc': 0, 's': 0, 'val': [], 'vec': [int(x) for x in f['vec']]}
             fs[name] = Bpi['sphi']
         elif f['kind'] == 'val':
             kw[name] = np.array(f['val'], dtype=np.float64)
             facc[name] = [(0, 'value', ())]
-            fenv[name] = {'kind': 'val', 'nc': 1, 's': 1, 'val': [f['val']], 'vec': []}
             fs[name] = 1
         elif f['kind'] == 'default':
             if defaults is None:
@@ -66,9 +64,36 @@ def _env(basis, Bpi, fields, attrs):
             pi = fem.field_pi(fld, facc[name], shape)
             if pi is None:
                 raise Skip(f'default {name} not dyadic')
-            fenv[name] = pi
+            defpi[name] = pi
             fs[name] = pi['s']
-    return kw, facc, fenv, fs
+    return kw, facc, fs, defpi
+
+
+def _fenv(fields, kw, defpi):
+    """the JSON env for TLC: what the keyword arrays contain NOW (they are inputs, read before the call)"""
+    fenv = {}
+    for f in fields:
+        name = f['name']
+        if f['kind'] == 'dof':
+            fenv[name] = {'kind': 'dof', 'nc': 0, 's': 0, 'val': [], 'vec': [int(x) for x in kw[name]]}
+        elif f['kind'] == 'val':
+            fenv[name] = {'kind': 'val', 'nc': 1, 's': 1, 'val': [[[int(x) for x in row] for row in kw[name]]], 'vec': []}
+        else:
+            fenv[name] = defpi[name]
+    return fenv
+
+
+def _update_in_place(kw, new, step):
+    """x[:] = ..., x += dx, x *= 0; x += ...: the SAME array objects get new contents between two calls"""
+    for name, vals in new.items():
+        arr, tgt = kw[name], np.array(vals, dtype=np.float64)
+        if step % 3 == 0:
+            arr[:] = tgt
+        elif step % 3 == 1:
+            arr += tgt - arr
+        else:
+            arr *= 0.0
+            arr[...] = arr + tgt
 
 
 def _alts_kw(basis, fields, kw):
@@ -79,13 +104,13 @@ def _alts_kw(basis, fields, kw):
         k2 = dict(kw)
         for f in fields:
             if f['kind'] == 'dof':
-                k2[f['name']] = basis.interpolate(np.array(f['vec'], dtype=np.float64))
+                k2[f['name']] = basis.interpolate(kw[f['name']].copy())
         out.append(k2)
     if any(f['kind'] == 'val' for f in fields):
         k2 = dict(kw)
         for f in fields:
             if f['kind'] == 'val':
-                k2[f['name']] = DiscreteField(np.array(f['val'], dtype=np.float64))
+                k2[f['name']] = DiscreteField(kw[f['name']].copy())
         out.append(k2)
     return out
 
@@ -105,15 +130,168 @@ def _mat(A, scale, part):
     return fem.csr_trip(A, scale)
 
 
-def exec_exact(rec):
-    """run the real code on an exact-universe recipe; returns (events, skipped_reason)"""
-    import skfem
-    from skfem import BilinearForm, LinearForm, Functional
-    kind = rec['mesh']['kind']
-    mesh = fem.make_mesh(rec['mesh'])
-    attrs = ('value', 'grad') if rec.get('grad') else ('value',)
-    bu = fem.make_basis(mesh, kind, rec['bu'])
-    bv = fem.make_basis(mesh, kind, rec['bv']) if rec.get('bv') else bu
+def _cvec(x):
+    """[ints] or {'re': ints, 'im': ints} -> array"""
+    if isinstance(x, dict):
+        return np.array(x['re'], dtype=np.float64) + 1j * np.array(x['im'], dtype=np.float64)
+    return np.array(x, dtype=np.float64)
+
+
+def _bil_events(rec, bu, bv, Bu, Bv, acc_u, acc_v, ctxu, forms, full, tags):
+    from skfem import BilinearForm, Functional
+    kw, facc, fs, defpi = ctxu
+    F, Fi = rec['bil'], rec.get('bil_im')
+    dtype = np.complex128 if Fi else np.float64
+    prm = {k: int(v) for k, v in rec.get('params', {}).items()}
+    accs = {'u': acc_u, 'v': acc_v, 'f': facc}
+    if 'bil' not in forms:          # the form objects are created once and reused over calls and over bases
+        forms['bil'] = BilinearForm(fem.bilinear_callable(F, accs, len(bu.basis[0]), Fi), dtype=dtype)
+        # the functional is created the usual way, without dtype: it has to return the complex integral as it is
+        forms['bilfun'] = Functional(fem.functional_callable(F, accs, 'uh', 'vh', Fi))
+    form, fun = forms['bil'], forms['bilfun']
+    fenv = _fenv(rec['fields_u'], kw, defpi)
+    pairs = list(rec.get('pairs', [])) if full else list(rec.get('pairs', []))[:1]
+    cpairs = list(rec.get('pairs_c', [])) if (full and not Fi) else []
+
+    def run():
+        out = {'A': form.assemble(bu, bv, **dict(kw), **prm)}
+        out['coo'] = form.elemental(bu, bv, **dict(kw), **prm) if (rec.get('elemental') and full) else None
+        out['alts'] = [form.assemble(bu, bv, **dict(k2), **prm) for k2 in _alts_kw(bu, rec['fields_u'], kw)]
+        out['pairs'] = [fun.assemble(bu, uh=bu.interpolate(_cvec(u)), vh=bv.interpolate(_cvec(v)), **dict(kw), **prm)
+                        for (u, v) in pairs + cpairs]
+        return out
+    out, err = guarded(run, 60)
+    events = []
+    for part in (('re', 'im') if Fi else ('re',)):
+        term = F if part == 're' else Fi
+        Sp = fem.term_scale(term, Bu['sphi'], Bv['sphi'], fs) * Bu['sdx']
+        ev = {'a': 'Bil', 'err': err, 'Bu': Bu, 'Bv': Bv, 'env': {'fld': fenv, 'prm': prm}, 'F': term, 'S': int(Sp),
+              'exact': 1, 'A': {'shape': [0, 0], 'trip': []}, 'coo': {'shape': [Bv['N'], Bu['N']], 'trip': []},
+              'alts': [], 'pairs': [], 'tags': dict(tags, part=part)}
+        if not err:
+            ok = True
+            trip, o = _mat(out['A'], Sp, part)
+            ok &= o
+            ev['A'] = {'shape': [int(x) for x in out['A'].shape], 'trip': trip}
+            if out['coo'] is not None:
+                c = out['coo']
+                vals = _ints(_part(np.asarray(c.data), part), Sp)
+                ok &= vals is not None
+                ev['coo'] = {'shape': [int(x) for x in c.shape],
+                             'trip': [[int(r) + 1, int(cc) + 1, int(x)] for r, cc, x in
+                                      zip(c.indices[0], c.indices[1], vals or [0] * len(c.data))]}
+            for A2 in out['alts']:
+                trip, o = _mat(A2, Sp, part)
+                ok &= o
+                ev['alts'].append({'shape': [int(x) for x in A2.shape], 'trip': trip})
+            for k, ((u, v), s) in enumerate(zip(pairs + cpairs, out['pairs'])):
+                if k < len(pairs):
+                    cases = [(u, v, _part(s, part))]
+                else:       # complex trial coefficients in a real form: real and imaginary part of one complex integral
+                    cases = [(u['re'], v, np.real(s)), (u['im'], v, np.imag(s))]
+                for (uu, vv, sv) in cases:
+                    fem.guard_sum([t[2] for t in ev['A']['trip']], max(map(abs, uu), default=0) * max(map(abs, vv), default=0))
+                    si = _ints(sv, Sp)
+                    ok &= si is not None
+                    ev['pairs'].append({'u': [int(x) for x in uu], 'v': [int(x) for x in vv], 's': int(si or 0)})
+            ev['exact'] = 1 if ok else 0
+        events.append(ev)
+    return events
+
+
+def _lin_events(rec, bv, Bv, acc_v, ctxv, forms, full, tags):
+    from skfem import LinearForm, Functional
+    kw, facc, fs, defpi = ctxv
+    accs = {'v': acc_v, 'f': facc}
+    F, Fi = rec['lin'], rec.get('lin_im')
+    ldtype = np.complex128 if Fi else np.float64
+    prm = {k: int(v) for k, v in rec.get('params', {}).items()}
+    if 'lin' not in forms:
+        forms['lin'] = LinearForm(fem.linear_callable(F, accs, Fi), dtype=ldtype)
+        forms['linfun'] = Functional(fem.functional_callable(F, accs, None, 'vh', Fi))       # no dtype on purpose
+    form, fun = forms['lin'], forms['linfun']
+    fenv = _fenv(rec['fields_v'], kw, defpi)
+    lp = list(rec.get('lpairs', []))
+    lpc = list(rec.get('lpairs_c', [])) if (full and not Fi) else []
+
+    def run():
+        out = {'b': form.assemble(bv, **dict(kw), **prm)}
+        out['coo'] = form.elemental(bv, **dict(kw), **prm) if (rec.get('elemental') and full) else None
+        out['alts'] = [form.assemble(bv, **dict(k2), **prm) for k2 in _alts_kw(bv, rec['fields_v'], kw)]
+        out['pairs'] = [fun.assemble(bv, vh=bv.interpolate(_cvec(v)), **dict(kw), **prm) for v in lp + lpc]
+        return out
+    out, err = guarded(run, 60)
+    events = []
+    for part in (('re', 'im') if Fi else ('re',)):
+        term = F if part == 're' else Fi
+        S = fem.term_scale(term, 1, Bv['sphi'], fs) * Bv['sdx']
+        ev = {'a': 'Lin', 'err': err, 'Bv': Bv, 'env': {'fld': fenv, 'prm': prm}, 'F': term, 'S': int(S), 'exact': 1,
+              'b': [], 'coo': [], 'alts': [], 'pairs': [], 'tags': dict(tags, part=part)}
+        if not err:
+            ok = True
+            b = _ints(_part(out['b'], part), S)
+            ok &= b is not None
+            ev['b'] = b or []
+            if out['coo'] is not None:
+                c = out['coo']
+                vals = _ints(_part(np.asarray(c.data), part), S)
+                ok &= vals is not None
+                ev['coo'] = [[int(r) + 1, int(x)] for r, x in zip(c.indices[0], vals or [0] * len(c.data))]
+            for b2 in out['alts']:
+                bi = _ints(_part(b2, part), S)
+                ok &= bi is not None
+                ev['alts'].append(bi or [])
+            for k, (v, s) in enumerate(zip(lp + lpc, out['pairs'])):
+                cases = [(v, _part(s, part))] if k < len(lp) else [(v['re'], np.real(s)), (v['im'], np.imag(s))]
+                for (vv, sv) in cases:
+                    fem.guard_sum(ev['b'], max(map(abs, vv), default=0))
+                    si = _ints(sv, S)
+                    ok &= si is not None
+                    ev['pairs'].append({'v': [int(x) for x in vv], 's': int(si or 0)})
+            ev['exact'] = 1 if ok else 0
+        events.append(ev)
+    return events
+
+
+def _fun_events(rec, bv, Bv, ctxv, forms, full, tags):
+    from skfem import Functional
+    kw, facc, fs, defpi = ctxv
+    accs = {'f': facc}
+    F, Fi = rec['fun'], rec.get('fun_im')
+    prm = {k: int(v) for k, v in rec.get('params', {}).items()}
+    if 'fun' not in forms:
+        # created the usual way (no dtype): a complex integrand has to come back as the complex integral
+        forms['fun'] = Functional(fem.functional_callable(F, accs, None, None, Fi))
+    form = forms['fun']
+    fenv = _fenv(rec['fields_v'], kw, defpi)
+
+    def run():
+        return {'s': form.assemble(bv, **dict(kw), **prm), 'el': form.elemental(bv, **dict(kw), **prm),
+                'alts': [form.assemble(bv, **dict(k2), **prm) for k2 in _alts_kw(bv, rec['fields_v'], kw)]}
+    out, err = guarded(run, 60)
+    events = []
+    for part in (('re', 'im') if Fi else ('re',)):
+        term = F if part == 're' else Fi
+        S = fem.term_scale(term, 1, 1, fs) * Bv['sdx']
+        ev = {'a': 'Fun', 'err': err, 'B': Bv, 'env': {'fld': fenv, 'prm': prm}, 'F': term, 'S': int(S), 'exact': 1,
+              's': 0, 'el': [], 'alts': [], 'tags': dict(tags, part=part)}
+        if not err:
+            elarr = np.broadcast_to(np.asarray(out['el']), (Bv['nel'],)) if np.ndim(out['el']) <= 1 else np.asarray(out['el'])
+            s, el = _ints(_part(out['s'], part), S), _ints(_part(elarr, part), S)
+            alts = [_ints(_part(a, part), S) for a in out['alts']]
+            ok = s is not None and el is not None and all(a is not None for a in alts) and np.ndim(elarr) == 1 \
+                and np.ndim(out['s']) == 0
+            ev.update(s=int(s or 0) if np.ndim(out['s']) == 0 else 0, el=el if ok else [],
+                      alts=[int(a or 0) for a in alts], exact=1 if ok else 0)
+        events.append(ev)
+    return events
+
+
+def _on_bases(rec, mesh, kind, attrs, bus, bvs, forms, first):
+    """all observations on one (trial, test) pair of basis objects; `forms` carries the form objects over to the
+    next pair of bases (object reuse)"""
+    bu = fem.make_basis(mesh, kind, bus)
+    bv = fem.make_basis(mesh, kind, bvs) if bvs else bu
     acc_u = fem.accessors(bu.basis[0], attrs)
     acc_v = fem.accessors(bv.basis[0], attrs)
     Bu = fem.basis_pi(bu, acc_u)
@@ -121,159 +299,58 @@ def exec_exact(rec):
     if Bu is None or Bv is None:
         raise Skip('basis values not dyadic')
     events = []
-    nfu = len(bu.basis[0])
-    cplx = bool(rec.get('bil_im'))
-    dtype = np.complex128 if cplx else np.float64
-    parts = ('re', 'im') if cplx else ('re',)
-
-    # ---------------- bilinear
-    if rec.get('bil'):
-        kw, facc, fenv, fs = _env(bu, Bu, rec['fields_u'], attrs)
-        accs = {'u': acc_u, 'v': acc_v, 'f': facc}
-        F, Fi = rec['bil'], rec.get('bil_im')
-        S = max(fem.term_scale(F, Bu['sphi'], Bv['sphi'], fs),
-                fem.term_scale(Fi, Bu['sphi'], Bv['sphi'], fs) if Fi else 1) * Bu['sdx']
-        prm = {k: int(v) for k, v in rec.get('params', {}).items()}
-        form = BilinearForm(fem.bilinear_callable(F, accs, nfu, Fi), dtype=dtype)
-
-        def run():
-            out = {'A': form.assemble(bu, bv, **dict(kw), **prm)}
-            out['coo'] = form.elemental(bu, bv, **dict(kw), **prm) if rec.get('elemental') else None
-            out['alts'] = [form.assemble(bu, bv, **dict(k2), **prm) for k2 in _alts_kw(bu, rec['fields_u'], kw)]
-            out['pairs'] = []
-            fun = Functional(fem.functional_callable(F, {'u': acc_u, 'v': acc_v, 'f': facc}, 'uh', 'vh', Fi), dtype=dtype)
-            for (u, v) in rec.get('pairs', []):
-                uh = bu.interpolate(np.array(u, dtype=np.float64))
-                vh = bv.interpolate(np.array(v, dtype=np.float64))
-                out['pairs'].append(fun.assemble(bu, uh=uh, vh=vh, **dict(kw), **prm))
-            return out
-        out, err = guarded(run, 60)
-        for part in parts:
-            term = F if part == 're' else Fi
-            Sp = fem.term_scale(term, Bu['sphi'], Bv['sphi'], fs) * Bu['sdx']
-            ev = {'a': 'Bil', 'err': err, 'Bu': Bu, 'Bv': Bv, 'env': {'fld': fenv, 'prm': prm}, 'F': term, 'S': int(Sp),
-                  'exact': 1, 'A': {'shape': [0, 0], 'trip': []}, 'coo': {'shape': [Bv['N'], Bu['N']], 'trip': []},
-                  'alts': [], 'pairs': [], 'tags': {'part': part}}
-            if not err:
-                ok = True
-                trip, o = _mat(out['A'], Sp, part)
-                ok &= o
-                ev['A'] = {'shape': [int(x) for x in out['A'].shape], 'trip': trip}
-                if out['coo'] is not None:
-                    c = out['coo']
-                    vals = _ints(_part(np.asarray(c.data), part), Sp)
-                    ok &= vals is not None
-                    ev['coo'] = {'shape': [int(x) for x in c.shape],
-                                 'trip': [[int(r) + 1, int(cc) + 1, int(x)] for r, cc, x in
-                                          zip(c.indices[0], c.indices[1], vals or [0] * len(c.data))]}
-                for A2 in out['alts']:
-                    trip, o = _mat(A2, Sp, part)
-                    ok &= o
-                    ev['alts'].append({'shape': [int(x) for x in A2.shape], 'trip': trip})
-                for (u, v), s in zip(rec.get('pairs', []), out['pairs']):
-                    fem.guard_sum([t[2] for t in ev['A']['trip']], max(map(abs, u), default=0) * max(map(abs, v), default=0))
-                    si = _ints(_part(s, part), Sp)
-                    ok &= si is not None
-                    ev['pairs'].append({'u': [int(x) for x in u], 'v': [int(x) for x in v], 's': int(si or 0)})
-                ev['exact'] = 1 if ok else 0
-            events.append(ev)
-
-    # ---------------- linear and functional (on the test basis)
-    if rec.get('lin'):
-        kw, facc, fenv, fs = _env(bv, Bv, rec['fields_v'], attrs)
-        accs = {'v': acc_v, 'f': facc}
-        F, Fi = rec['lin'], rec.get('lin_im')
-        ldtype = np.complex128 if Fi else np.float64
-        prm = {k: int(v) for k, v in rec.get('params', {}).items()}
-        form = LinearForm(fem.linear_callable(F, accs, Fi), dtype=ldtype)
-
-        def run():
-            out = {'b': form.assemble(bv, **dict(kw), **prm)}
-            out['coo'] = form.elemental(bv, **dict(kw), **prm) if rec.get('elemental') else None
-            out['alts'] = [form.assemble(bv, **dict(k2), **prm) for k2 in _alts_kw(bv, rec['fields_v'], kw)]
-            fun = Functional(fem.functional_callable(F, accs, None, 'vh', Fi), dtype=ldtype)
-            out['pairs'] = [fun.assemble(bv, vh=bv.interpolate(np.array(v, dtype=np.float64)), **dict(kw), **prm)
-                            for v in rec.get('lpairs', [])]
-            return out
-        out, err = guarded(run, 60)
-        for part in (('re', 'im') if Fi else ('re',)):
-            term = F if part == 're' else Fi
-            S = fem.term_scale(term, 1, Bv['sphi'], fs) * Bv['sdx']
-            ev = {'a': 'Lin', 'err': err, 'Bv': Bv, 'env': {'fld': fenv, 'prm': prm}, 'F': term, 'S': int(S), 'exact': 1,
-                  'b': [], 'coo': [], 'alts': [], 'pairs': [], 'tags': {'part': part}}
-            if not err:
-                ok = True
-                b = _ints(_part(out['b'], part), S)
-                ok &= b is not None
-                ev['b'] = b or []
-                if out['coo'] is not None:
-                    c = out['coo']
-                    vals = _ints(_part(np.asarray(c.data), part), S)
-                    ok &= vals is not None
-                    ev['coo'] = [[int(r) + 1, int(x)] for r, x in zip(c.indices[0], vals or [0] * len(c.data))]
-                for b2 in out['alts']:
-                    bi = _ints(_part(b2, part), S)
-                    ok &= bi is not None
-                    ev['alts'].append(bi or [])
-                for v, s in zip(rec.get('lpairs', []), out['pairs']):
-                    fem.guard_sum(ev['b'], max(map(abs, v), default=0))
-                    si = _ints(_part(s, part), S)
-                    ok &= si is not None
-                    ev['pairs'].append({'v': [int(x) for x in v], 's': int(si or 0)})
-                ev['exact'] = 1 if ok else 0
-            events.append(ev)
-
-    if rec.get('fun'):
-        kw, facc, fenv, fs = _env(bv, Bv, rec['fields_v'], attrs)
-        accs = {'f': facc}
-        F = rec['fun']
-        S = fem.term_scale(F, 1, 1, fs) * Bv['sdx']
-        prm = {k: int(v) for k, v in rec.get('params', {}).items()}
-        form = Functional(fem.functional_callable(F, accs))
-
-        def run():
-            return {'s': form.assemble(bv, **dict(kw), **prm), 'el': form.elemental(bv, **dict(kw), **prm),
-                    'alts': [form.assemble(bv, **dict(k2), **prm) for k2 in _alts_kw(bv, rec['fields_v'], kw)]}
-        out, err = guarded(run, 60)
-        ev = {'a': 'Fun', 'err': err, 'B': Bv, 'env': {'fld': fenv, 'prm': prm}, 'F': F, 'S': int(S), 'exact': 1,
-              's': 0, 'el': [], 'alts': []}
-        if not err:
-            s, el = _ints(out['s'], S), _ints(np.asarray(out['el']), S)
-            alts = [_ints(a, S) for a in out['alts']]
-            ok = s is not None and el is not None and all(a is not None for a in alts) and np.ndim(out['el']) == 1
-            ev.update(s=int(s or 0), el=el if ok else [], alts=[int(a or 0) for a in alts], exact=1 if ok else 0)
-        events.append(ev)
+    ctxu = _env(bu, Bu, rec['fields_u'], attrs)
+    ctxv = _env(bv, Bv, rec['fields_v'], attrs)
+    hist_u = rec.get('hist_u', []) if first else []
+    hist_v = rec.get('hist_v', []) if first else []
+    nsteps = 1 + max(len(hist_u), len(hist_v))
+    for step in range(nsteps):
+        if step > 0:        # the caller updates its arrays in place and assembles again with the same objects
+            if step <= len(hist_u):
+                _update_in_place(ctxu[0], hist_u[step - 1], step)
+            if step <= len(hist_v):
+                _update_in_place(ctxv[0], hist_v[step - 1], step)
+        full = first and step == 0
+        tags = {'step': step, 'reuse': 0 if first else 1}
+        if rec.get('bil') and (step == 0 or step <= len(hist_u)):
+            events += _bil_events(rec, bu, bv, Bu, Bv, acc_u, acc_v, ctxu, forms, full, tags)
+        if step == 0 or step <= len(hist_v):
+            if rec.get('lin'):
+                events += _lin_events(rec, bv, Bv, acc_v, ctxv, forms, full, tags)
+            if rec.get('fun'):
+                events += _fun_events(rec, bv, Bv, ctxv, forms, full, tags)
 
     # ---------------- interpolate
-    for which, basis, Bpi, acc in (('u', bu, Bu, acc_u), ('v', bv, Bv, acc_v)):
-        for w in rec.get('interp_' + which, []):
-            wre = np.array(w['re'], dtype=np.float64)
-            warr = wre + 1j * np.array(w['im'], dtype=np.float64) if 'im' in w else wre
-            out, err = guarded(lambda: basis.interpolate(warr), 30)
-            for part in (('re', 'im') if 'im' in w else ('re',)):
-                ev = {'a': 'Interp', 'err': err, 'B': Bpi, 'w': [int(x) for x in w[part]], 'exact': 1, 'out': [],
-                      'tags': {'part': part}}
-                if not err:
-                    tabs = []
-                    ok = True
-                    try:
-                        for ac in acc:
-                            a = np.asarray(fem.comp(out, ac))
-                            t = _ints(np.broadcast_to(_part(a, part), (Bpi['nel'], Bpi['nq'])), Bpi['sphi']) \
-                                if a.shape == (Bpi['nel'], Bpi['nq']) else None
-                            ok &= t is not None
-                            tabs.append(t or [])
-                    except (IndexError, AttributeError, TypeError):
-                        ok, tabs = False, []
-                    ev['out'] = tabs
-                    ev['exact'] = 1 if ok else 0
-                events.append(ev)
+    if first:
+        for which, basis, Bpi, acc in (('u', bu, Bu, acc_u), ('v', bv, Bv, acc_v)):
+            for w in rec.get('interp_' + which, []):
+                wre = np.array(w['re'], dtype=np.float64)
+                warr = wre + 1j * np.array(w['im'], dtype=np.float64) if 'im' in w else wre
+                out, err = guarded(lambda: basis.interpolate(warr), 30)
+                for part in (('re', 'im') if 'im' in w else ('re',)):
+                    ev = {'a': 'Interp', 'err': err, 'B': Bpi, 'w': [int(x) for x in w[part]], 'exact': 1, 'out': [],
+                          'tags': {'part': part}}
+                    if not err:
+                        tabs = []
+                        ok = True
+                        try:
+                            for ac in acc:
+                                a = np.asarray(fem.comp(out, ac))
+                                t = _ints(np.broadcast_to(_part(a, part), (Bpi['nel'], Bpi['nq'])), Bpi['sphi']) \
+                                    if a.shape == (Bpi['nel'], Bpi['nq']) else None
+                                ok &= t is not None
+                                tabs.append(t or [])
+                        except (IndexError, AttributeError, TypeError):
+                            ok, tabs = False, []
+                        ev['out'] = tabs
+                        ev['exact'] = 1 if ok else 0
+                    events.append(ev)
 
     # ---------------- what the restricted bases must be
-    for basis, bs, Bpi, acc in ((bu, rec['bu'], Bu, acc_u),) + (((bv, rec['bv'], Bv, acc_v),) if rec.get('bv') else ()):
+    for basis, bs, Bpi, acc in ((bu, bus, Bu, acc_u),) + (((bv, bvs, Bv, acc_v),) if bvs else ()):
         if bs['type'] == 'cell' and bs.get('elements') is not None:
-            full = fem.make_basis(mesh, kind, dict(bs, elements=None))
-            Bf = fem.basis_pi(full, acc)
+            full_b = fem.make_basis(mesh, kind, dict(bs, elements=None))
+            Bf = fem.basis_pi(full_b, acc)
             if Bf is not None:
                 # same scales so that tables are comparable entry by entry
                 if Bf['sphi'] != Bpi['sphi'] or Bf['sdx'] != Bpi['sdx']:
@@ -291,6 +368,20 @@ def exec_exact(rec):
                            'fedofs': Bpi['edofs'], 'cedofs': [[int(x) + 1 for x in row] for row in ced],
                            'f2t': [[int(mesh.f2t[0, f]) + 1, int(mesh.f2t[1, f]) + 1] for f in find],
                            'ori': [] if ori is None else [int(x) for x in ori]})
+    return events
+
+
+def exec_exact(rec):
+    """run the real code on an exact-universe recipe: one mesh object, one set of form objects; the forms are
+    assembled on the first pair of bases (with call histories: keyword arrays modified in place between calls)
+    and then, the same objects, on a second pair of bases of the same mesh when the recipe has one"""
+    kind = rec['mesh']['kind']
+    mesh = fem.make_mesh(rec['mesh'])
+    attrs = ('value', 'grad') if rec.get('grad') else ('value',)
+    forms = {}
+    events = _on_bases(rec, mesh, kind, attrs, rec['bu'], rec.get('bv'), forms, True)
+    if rec.get('bu2'):
+        events += _on_bases(rec, mesh, kind, attrs, rec['bu2'], rec.get('bv2'), forms, False)
     return events
 
 
@@ -324,6 +415,34 @@ def _small_vec(rng, n, lo=-1, hi=2):
     return [int(x) for x in rng.integers(lo, hi + 1, size=n)]
 
 
+def _alt_subset(rng, mesh, bs):
+    """another cell / facet subset of the same size on the same mesh (None if there is none)"""
+    if bs['type'] == 'cell':
+        el = bs.get('elements')
+        nt = mesh.t.shape[1]
+        if el is None or len(el) >= nt:
+            return None
+        for _ in range(10):
+            new = [int(x) for x in rng.permutation(nt)[:len(el)]]
+            if set(new) != set(el):
+                return {'elements': new}
+        return None
+    fa = bs.get('facets')
+    if fa is None:
+        return None
+    pool = fem.axis_parallel_facets(mesh, 'boundary' if bs['type'] == 'facet' else 'interior')
+    if len(pool) <= len(fa):
+        return None
+    for _ in range(10):
+        new = [int(pool[j]) for j in rng.permutation(len(pool))[:len(fa)]]
+        if set(new) != set(fa):
+            out = {'facets': new}
+            if bs.get('ori') is not None:
+                out['ori'] = [int(rng.integers(0, 2)) if bs['type'] == 'ifacet' else 0 for _ in new]
+            return out
+    return None
+
+
 def gen_exact(rng, tier):
     """one recipe of the exact universe (the generator builds the bases once to learn their sizes)"""
     kind = str(rng.choice(['line', 'tri', 'tri', 'tri', 'quad', 'quad', 'tet', 'hex']))
@@ -333,6 +452,11 @@ def gen_exact(rng, tier):
     btype = str(rng.choice(['cell', 'cell', 'cellsub', 'facet', 'facetsub', 'ifacet', 'ifacet'])) if kind != 'line' \
         else str(rng.choice(['cell', 'cell', 'cellsub']))
     grad = int(rng.integers(0, 3) == 0)
+    # "sidepair": the two sides of interior facets as trial and test basis of ONE element (DG / jump blocks): trial != test
+    # with equal numbers of DOFs, and a coefficient vector whose traces differ between the sides
+    sidepair = kind != 'line' and rng.integers(0, 8) == 0
+    if sidepair:
+        btype = 'ifacet' 
     bs = {}
     if btype in ('cell', 'cellsub'):
         bs['type'] = 'cell'
@@ -361,11 +485,14 @@ def gen_exact(rng, tier):
     elems = EXACT_ELEMS[kind]
     eu = elems[int(rng.integers(0, len(elems)))]
     ev = elems[int(rng.integers(0, len(elems)))] if rng.integers(0, 3) else eu
+    if sidepair:
+        ev = eu
+        grad = 1 if rng.integers(0, 3) else grad
     bu_s = dict(bs, elem=eu)
     bv_s = dict(bs, elem=ev)
     if bs['type'] == 'ifacet':
         bu_s['side'] = int(rng.integers(0, 2))
-        bv_s['side'] = int(rng.integers(0, 2))
+        bv_s['side'] = int(rng.integers(0, 2)) if not sidepair else 1 - bu_s['side']
     same = (bu_s == bv_s)
     try:
         bu = fem.make_basis(mesh, kind, bu_s)
@@ -383,12 +510,13 @@ def gen_exact(rng, tier):
     rec = {'driver': 'exact', 'mesh': mrec, 'bu': bu_s, 'bv': None if same else bv_s, 'grad': grad,
            'params': {'alpha': int(rng.choice([-2, 2, 3]))}}
 
-    def fields_for(basis, nc, dof_ok=True):
+    def fields_for(basis, nc, force_dof=False):
         fl = []
         avail = []
-        # a DOF-vector keyword is interpolated with the basis of the form; for trial != test the property does not
-        # say with which one, so it is only generated when both coincide
-        if dof_ok and rng.integers(0, 2):
+        # a DOF-vector keyword of a bilinear form is a coefficient vector of the TRIAL basis (form.py
+        # _normalize_asm_kwargs(kwargs, ubasis)), the basis that also supplies the default x / h / n; passing the
+        # vector and passing ubasis.interpolate(vector) must give the same tensor, also for trial != test
+        if force_dof or rng.integers(0, 2):
             fl.append({'name': 'c', 'kind': 'dof', 'vec': _small_vec(rng, basis.N)})
             avail.append(('c', nc))
         if rng.integers(0, 2):
@@ -401,23 +529,61 @@ def gen_exact(rng, tier):
             fl.append({'name': 'n', 'kind': 'default'})
             avail.append(('n', mesh.dim()))
         return fl, avail
-    rec['fields_u'], av_u = fields_for(bu, ncu, dof_ok=same)
+    rec['fields_u'], av_u = fields_for(bu, ncu, force_dof=bool(sidepair))
     rec['fields_v'], av_v = fields_for(bv, ncv)
+    # the same form objects assembled afterwards on a second pair of bases of the same mesh (other cells / facets,
+    # equal array shapes); the default fields must then be those of the second pair
+    alt = _alt_subset(rng, mesh, bs)
+    if alt is not None and rng.integers(0, 2):
+        rec['bu2'] = dict(bu_s, **alt)
+        rec['bv2'] = None if same else dict(bv_s, **alt)
+        for fl, av in ((rec['fields_u'], av_u), (rec['fields_v'], av_v)):
+            if not any(f['name'] == 'x' for f in fl):
+                fl.append({'name': 'x', 'kind': 'default'})
+                av.append(('x', mesh.dim()))
     rec['bil'] = fem.gen_bilinear(rng, ncu, ncv, av_u, ['alpha'])
+    for _ in range(20):
+        if not sidepair or "'c'" in repr(rec['bil']):
+            break
+        rec['bil'] = fem.gen_bilinear(rng, ncu, ncv, av_u, ['alpha'])
     if rng.integers(0, 6) == 0:
         rec['bil_im'] = fem.gen_bilinear(rng, ncu, ncv, av_u, ['alpha'], nsum=1)
     rec['lin'] = fem.gen_linear(rng, ncv, av_v, ['alpha'])
     if rng.integers(0, 6) == 0:
         rec['lin_im'] = fem.gen_linear(rng, ncv, av_v, ['alpha'], nsum=1)
     rec['fun'] = fem.gen_functional(rng, av_v, ['alpha'])
+    if rng.integers(0, 4) == 0:
+        rec['fun_im'] = fem.gen_functional(rng, av_v, ['alpha'], nsum=1)
     rec['elemental'] = int(work <= 1500 and rng.integers(0, 2) == 1)
     npair = 2 if work <= 2000 else 1
     rec['pairs'] = [[_small_vec(rng, bu.N), _small_vec(rng, bv.N)] for _ in range(npair)]
     rec['lpairs'] = [_small_vec(rng, bv.N)]
+    # complex coefficient vectors through the functional (created without dtype) against the real matrix / vector
+    if rng.integers(0, 3) == 0:
+        rec['pairs_c'] = [[{'re': _small_vec(rng, bu.N), 'im': _small_vec(rng, bu.N)}, _small_vec(rng, bv.N)]]
+    if rng.integers(0, 3) == 0:
+        rec['lpairs_c'] = [{'re': _small_vec(rng, bv.N), 'im': _small_vec(rng, bv.N)}]
+    # call histories: the keyword arrays are modified in place and the same objects are passed again
+    def hist_for(fields, basis):
+        steps = []
+        if work <= 2500 and rng.integers(0, 2):
+            for _ in range(int(rng.integers(1, 3))):
+                st = {}
+                for f in fields:
+                    if f['kind'] == 'dof':
+                        st[f['name']] = _small_vec(rng, basis.N)
+                    elif f['kind'] == 'val':
+                        st[f['name']] = [[int(x) for x in row] for row in rng.integers(-2, 4, size=(nel, nqq))]
+                if st:
+                    steps.append(st)
+        return steps
+    rec['hist_u'] = hist_for(rec['fields_u'], bu)
+    rec['hist_v'] = hist_for(rec['fields_v'], bv)
     rec['interp_u'] = [{'re': _small_vec(rng, bu.N, -2, 3)}]
     rec['interp_v'] = [{'re': _small_vec(rng, bv.N, -2, 3), 'im': _small_vec(rng, bv.N, -2, 3)}] if rng.integers(0, 3) == 0 else []
     tags = {'kind': kind, 'btype': btype, 'oriented': int('ori' in bs), 'eu': fem.elem_name(eu), 'ev': fem.elem_name(ev), 'tier': 'exact',
-            'rect': int(eu != ev), 'grad': grad, 'complex': int('bil_im' in rec or 'lin_im' in rec)}
+            'rect': int(eu != ev), 'grad': grad, 'complex': int('bil_im' in rec or 'lin_im' in rec or 'fun_im' in rec),
+            'sidepair': int(bool(sidepair)), 'hist': len(rec['hist_u']) + len(rec['hist_v']), 'reuse': int('bu2' in rec)}
     return rec, tags
 
 
@@ -490,7 +656,7 @@ def model(ctx):
 def generate(ctx):
     thorough = ctx.tier == 'thorough'
     out = []
-    n_exact = 9000 if thorough else 520
+    n_exact = 8000 if thorough else 440
     rng = np.random.default_rng(ctx.seed + 101)
     k = 0
     tries = 0
